@@ -62,7 +62,7 @@ class TapeProp(object):
         return self._avoid_empty
 
     def budget(self, tier):
-        return 4000 if tier == "quick" else 120_000
+        return 3600 if tier == "quick" else 120_000
 
     def selfcheck(self):
         return RT.validate()
@@ -88,6 +88,11 @@ class TapeProp(object):
                 ops.append({"op": "peer_record", "file": fd, "leader": rng.choice([64, 128, 300]), "blank": rng.choice([0, 64, 128]),
                             "data_leader": 128, "blocks": None, "prefix": [rng.choice([0, 16, 200]), rng.choice([0, 0, 32])] if j == 0 else None})
             ops.append({"op": "cli_list"})
+            if rng.chance(0.5):
+                for op in ops[:3]:
+                    op["op"] = "tool_add"          # the same, written by the tool itself (names of up to 12 characters)
+                    op["file"]["name"] = GF.name(rng, lo=9, hi=12) if rng.chance(0.6) else op["file"]["name"]
+                return {"family": "big_tool", "ops": ops}
             return {"family": "big_peer", "ops": ops}
         n_ops = rng.weighted([(1, 2), (2, 4), (3, 4), (4, 3), (5, 2), (6, 2), (8, 1)])
         ops = []
